@@ -58,6 +58,26 @@ LinearB(c) ==
        << Q(<<>>, OpTerm(c.op, lin, D), [i \in 1..Cardinality(inside) |-> Row3(500, 500, SetToSeq(inside)[i])], Dec(1, -9)) >>
        \o (IF outside = {} THEN <<>> ELSE << Q(<<>>, Adiabat(D), [i \in 1..Cardinality(outside) |-> Row3(500, 500, SetToSeq(outside)[i])], Dec(1, -12)) >>))
 
+(* the feature's max depth varies laterally (values at points, an affine surface): the local bottom of the model's range is
+   the feature's LOCAL max depth; cell 4 of a row carries it *)
+LinVarCase == [type : AreaTypes, s : Sentinels]
+LinVarB(c) ==
+  LET bot == V("$4")
+      ttop == IF c.s[1] < 0 THEN Adiabat(0) ELSE c.s[1]
+      tbot == IF c.s[2] < 0 THEN Adiabat(bot) ELSE c.s[2]
+      lin == Add(ttop, Mul(D, Div(Sub(tbot, ttop), bot)))
+      P(x, y) == <<x * Km, y * Km>>
+      doc == WorldOf(<<Area(c.type, "f", Rect(100 * Km, 100 * Km, 1100 * Km, 1100 * Km), 0,
+                           << <<50 * Km, <<P(100, 100), P(100, 1100)>>>>, <<150 * Km, <<P(1100, 100), P(1100, 1100)>>>> >>,
+                           <<   ("model" :> "linear") @@ ("min depth" :> 0) @@ ("max depth" :> 400 * Km)
+                             @@ ("top temperature" :> c.s[1]) @@ ("bottom temperature" :> c.s[2]) >>, <<>>, <<>>, <<>>)>>)
+      (* local max depth at x km: 50 + (x - 100) / 10 km *)
+      rows == [i \in 1..9 |-> LET x == <<300, 600, 900>>[((i - 1) \div 3) + 1]
+                                  lb == (50 + (x - 100) \div 10) * Km
+                                  d == <<1 * Km, lb \div 2, lb - 1>>[((i - 1) % 3) + 1]
+                              IN Row3(x, 500, d) \o <<lb>>]
+  IN B(<<"linear-varying", c>>, <<"linear", c.type, "laterally-varying-feature-depth">>, doc, << Q(<<>>, lin, rows, Dec(1, -8)) >>)
+
 (*************************** uniform *****************************************)
 UniformCase == [type : AreaTypes, op : Ops]
 UniformB(c) ==
@@ -167,11 +187,11 @@ LineLinB(c) ==
   IN B(<<"line-linear", c>>, <<"linear-in-distance", c.type>>, doc, << Q(<<>>, OpTerm(c.op, want, D), rows, Dec(1, -8)) >>)
 
 VARIABLE case
-Cases ==    ({"linear"} \X LinearCase) \cup ({"uniform"} \X UniformCase) \cup ({"adiabatic"} \X AdCase) \cup ({"chapman"} \X ChapCase)
+Cases ==    ({"linear"} \X LinearCase) \cup ({"linear-varying"} \X LinVarCase) \cup ({"uniform"} \X UniformCase) \cup ({"adiabatic"} \X AdCase) \cup ({"chapman"} \X ChapCase)
        \cup ({"cooling"} \X CoolCase) \cup ({"gaussian"} \X GaussCase) \cup ({"line-linear"} \X LineLinCase)
 Init == case \in Cases
 Next == UNCHANGED case
-Behaviour == CASE case[1] = "linear" -> LinearB(case[2]) [] case[1] = "uniform" -> UniformB(case[2]) [] case[1] = "adiabatic" -> AdB(case[2])
+Behaviour == CASE case[1] = "linear" -> LinearB(case[2]) [] case[1] = "linear-varying" -> LinVarB(case[2]) [] case[1] = "uniform" -> UniformB(case[2]) [] case[1] = "adiabatic" -> AdB(case[2])
                [] case[1] = "chapman" -> ChapB(case[2]) [] case[1] = "cooling" -> CoolB(case[2]) [] case[1] = "gaussian" -> GaussB(case[2])
                [] case[1] = "line-linear" -> LineLinB(case[2])
 Emit == PrintT(<<"B", ToJson(Behaviour)>>)
